@@ -87,6 +87,11 @@ CHECKS = {
         "note": "Trusted: TLC, scipy logm for building H from P, lattice probe bath. The reorganisation-energy closed form and n_steps-independence for real spectral densities are numerical: only a loose cross-check (1e-5) is run and labelled as such.",
         "technique": "TLA+ exact-arithmetic spec + TLC; spec->code replay with integer propagators; history replay from Stepper.tla",
     },
+    "C08": {
+        "text": "PTContract.tla tracks, for every term of the exact monomial dynamics, the system levels <<ket, bra>> at every half-step propagator; the derivative of the objective with respect to a phase parameter or a dephasing rate at half step j multiplies each term by an explicit function of those levels, so TLC's term lists give the exact 2N x M gradient. Real state_gradient runs on a genuine ParameterizedSystem (Hamiltonian and Lindblad rate depending on the parameters) with the library's numerical propagator derivatives (2e-6) and with user-supplied ones (1e-9, also shifting half steps via a subclass), one and two non-commuting ancilla environments, linear and callable targets; every gradient entry, the reported dynamics and the final state are compared.",
+        "note": "Trusted: TLC, monomial gate alphabet, harness construction of propagators/derivatives; exhaustive for 2 steps, sampled for 3 steps and shifting half steps. gradprop tensors are not compared individually (only through the chain rule).",
+        "technique": "TLA+ exact reference semantics with per-term trajectories + TLC enumeration/simulation; spec->code replay of gradients",
+    },
 }
 for e in ENGINES:
     e["serves_properties"] = sorted(CHECKS)
